@@ -19,8 +19,9 @@ RULE = ("configurations: predictor hidden layers in {[], [k], [k1,k2]} (widths u
         "non-zero adversary gradient; distinct = distinct (configuration, batch)")
 ASSUMPTIONS = ["float32 tolerance: 1e-4 relative to the tensor/gradient scale (max-norm)", "plain SGD optimisers for both players (as the statement says)",
                "TensorFlow engine: tensorflow/keras are not installed; the real TensorflowEngine.train_step is executed on a declared torch-backed shim (mc/tf_shim.py, trusted); if the engine touches an API outside the shim that part reports tf_not_executable and raises no alarm"]
-CLASSES = ["tensorflow_engine_via_shim", "matrix_tensor_ge2_rows", "equalized_odds", "multiclass_target", "continuous_target", "multiclass_sensitive", "continuous_sensitive",
-           "zero_adversary_gradient_tensor", "two_hidden_layers", "alpha_zero"]
+CLASSES = ["tensorflow_engine_via_shim", "matrix_tensor_ge2_rows", "equalized_odds", "multiclass_target", "continuous_target", "multiclass_sensitive", "continuous_sensitive", "two_hidden_layers", "alpha_zero"]
+# classes whose occurrence depends on implementation internals (reported, warned about when absent, never a hard vacuity error)
+SOFT_CLASSES = ["zero_adversary_gradient_tensor"]
 
 ROWS = [(1.0, 2.0, 0.5), (2.0, 1.0, -1.0), (-1.0, -1.5, 1.0), (0.5, -2.0, 2.0)]
 LRS = [0.1, 0.05, 0.2, 0.125]
